@@ -422,7 +422,66 @@ func runC09(c *ctx) {
 			c09Eval(c, cs)
 		}
 	})
-	c.Required = []string{"total-assignment", "partial-assignment", "empty-assignment", "out-of-domain-values", "refused-by-both", "split-into-2", "split-into-3", "message-level", "message-observed-before-fill", "fill-in-item-with-its-own-variable", "unfilled-ellipsis-and-unknown-ellipsis-key", "near-miss-unknown-key"}
+	// a fill value that is a string names a variable (the constructors read every string as a name): filling a with "b"
+	// gives what the constructor gives with b in a's place - whatever b spells (T, F, type names, inf, numbers in disguise)
+	newNames := []string{"b", "T", "F", "t", "f", "L", "A", "U1", "F4", "BOOLEAN", "inf", "NaN", "TRUE", "false", "x1", "e5", "_", "b[0]", "b[07]", "O7", "W"}
+	c.parallel(c.pick(6000, 60000), func(i int, r *rng.R) {
+		g := gen.New(r, gen.Profile{MaxDepth: r.Intn(3), Vars: true, Budget: 100, MaxKids: 3, MaxElems: 4})
+		tpl := g.Tree()
+		vars := tpl.Vars()
+		if len(vars) == 0 {
+			return
+		}
+		old := vars[r.Intn(len(vars))]
+		nn := newNames[r.Intn(len(newNames))]
+		// the model: the same template with the name replaced (slot variables and list variables; an ASCII variable
+		// takes a string as its value, not as a name)
+		isASCII := false
+		var ren func(x *ref.Item) *ref.Item
+		ren = func(x *ref.Item) *ref.Item {
+			y := x.Clone()
+			if y.Var == old {
+				y.Var = nn
+			}
+			if y.Kind == ref.A && y.AVar == old {
+				isASCII = true
+			}
+			for k := range y.Slots {
+				if y.Slots[k].Var == old {
+					y.Slots[k].Var = nn
+				}
+			}
+			for k, ch := range y.Children {
+				y.Children[k] = ren(ch)
+			}
+			return y
+		}
+		want := ren(tpl)
+		if isASCII {
+			return
+		}
+		var node, filled, direct ast.ItemNode
+		if o := real.Try(func() { node = real.Build(tpl) }); o.Panicked {
+			return
+		}
+		of := real.Try(func() { filled = node.FillVariables(map[string]interface{}{old: nn}) })
+		od := real.Try(func() { direct = real.Build(want) })
+		c.Note(rng.HashStr(ref.Print(tpl)+old+nn), true)
+		c.Class("rename-by-string-value")
+		cs := c09Case{Tpl: tpl, Sub: map[string]ref.Val{old: {Str: []byte(nn), IsS: true}}}
+		if of.Panicked != od.Panicked {
+			c.Violation("C09/rename/refusal-differs-from-constructor", fmt.Sprintf("FillVariables(%q: %q): %s; the constructor with %q in place: %s; template %s", old, nn, of, nn, od, clipS(ref.Print(tpl))), cs)
+			return
+		}
+		if of.Panicked {
+			c.Class("rename-refused-by-both")
+			return
+		}
+		if d := real.SnapItem(filled).Diff(real.SnapItem(direct)); d != "" {
+			c.Violation("C09/rename/differs-from-direct-construction", fmt.Sprintf("FillVariables(%q: %q) vs the constructor with %q in place: %s; template %s", old, nn, nn, d, clipS(ref.Print(tpl))), cs)
+		}
+	})
+	c.Required = []string{"rename-by-string-value", "total-assignment", "partial-assignment", "empty-assignment", "out-of-domain-values", "refused-by-both", "split-into-2", "split-into-3", "message-level", "message-observed-before-fill", "fill-in-item-with-its-own-variable", "unfilled-ellipsis-and-unknown-ellipsis-key", "near-miss-unknown-key"}
 }
 
 func replayC09(c *ctx, raw json.RawMessage) {
